@@ -892,7 +892,7 @@ Proof.
         apply sort_by_in in A. apply sort_by_in in B. split; apply HCl; assumption.
       * intros g x Hg Hx. apply in_map_iff in Hg. destruct Hg as [[ck cl] [He Hh]]. subst g. cbn [fst snd] in Hx.
         apply in_flat_map in Hh. destruct Hh as [cl0 [Hcl0 Hh]]. apply in_map_iff in Hh.
-        destruct Hh as [ck0 [He Hck0]]. inversion He; subst. apply cand_scan_In in Hck0. apply In_skipn' in Hck0.
+        destruct Hh as [ck0 [He Hck0]]. inversion He; subst. apply filter_In in Hck0. destruct Hck0 as [Hck0 _].
         apply sort_by_in in Hcl0.
         apply in_app_or in Hx. destruct Hx as [Hx|[Hx|[]]]; [exact (Hcc ck Hck0 x Hx)|subst x; exact (HCl cl Hcl0)].
     + intros x Hx. apply sort_by_in in Hx. exact (HCl x Hx).
@@ -906,8 +906,7 @@ Proof.
   intros P singles cands HS HC. unfold find_neighbouring. cbv zeta. apply merge_sets_allin.
   assert (HU : forall x, In x (iter (diff singles (map snd
              (flat_map (fun s => map (fun c => (c, s))
-                (cand_scan_plain (fun c => overlap (ploc s) (cloc c)) (lend (ploc s))
-                   (skipn (window_index_plain cands s) cands ++ firstn 1 cands))) singles)))) -> In x P).
+                (filter (fun c => overlap (ploc s) (cloc c)) cands)) singles)))) -> In x P).
   { intros x Hx. apply In_iter in Hx. apply In_diff in Hx. exact (HS x Hx). }
   apply allin_app; [apply allin_app; [apply allin_app|]|].
   - intros g x Hg Hx. unfold find_neighbouring_candidates in Hg. apply in_map_iff in Hg.
@@ -915,9 +914,8 @@ Proof.
     apply In_union in Hx. destruct Hx as [Hx|Hx]; [exact (HC a A x Hx)|exact (HC b B x Hx)].
   - intros g x Hg Hx. apply in_map_iff in Hg. destruct Hg as [[c s] [He Hh]]. subst g. cbn [fst snd] in Hx.
     apply in_flat_map in Hh. destruct Hh as [s0 [Hs0 Hh]]. apply in_map_iff in Hh. destruct Hh as [c0 [He Hc0]].
-    inversion He; subst. apply cand_scan_plain_In in Hc0.
-    assert (Hc : In c cands).
-    { apply in_app_or in Hc0. destruct Hc0 as [A|A]; [exact (In_skipn' _ _ _ _ A)|exact (In_firstn' _ _ _ _ A)]. }
+    inversion He; subst. apply filter_In in Hc0.
+    assert (Hc : In c cands) by exact (proj1 Hc0).
     apply In_union in Hx. destruct Hx as [Hx|[Hx|[]]]; [exact (HC c Hc x Hx)|subst x; exact (HS s Hs0)].
   - intros g x Hg Hx. apply in_flat_map in Hg. destruct Hg as [c [Hc Hg]].
     match type of Hg with In g (match ?f with _ => _ end) => destruct f as [|s r] eqn:Ef end; [destruct Hg|].
@@ -934,11 +932,7 @@ Proof.
     assert (Hs : In s (s :: r)) by (left; reflexivity). rewrite <- Ef in Hs. apply filter_In in Hs.
     exact (HU s (proj1 Hs)).
   - unfold find_neighbouring_protoclusters. apply pair_groups_allin. intros a b Hab.
-    assert (Hin : forall y, In y (sort_by lt_pp (iter (diff singles (map snd
-             (flat_map (fun s => map (fun c => (c, s))
-                (cand_scan_plain (fun c => overlap (ploc s) (cloc c)) (lend (ploc s))
-                   (skipn (window_index_plain cands s) cands ++ firstn 1 cands))) singles))))) -> In y P).
-    { intros y Hy. apply sort_by_in in Hy. exact (HU y Hy). }
+    assert (Hin : forall y, In y singles -> In y P) by exact HS.
     apply in_app_or in Hab. destruct Hab as [Hab|Hab].
     + apply pairs_rel_In in Hab. destruct Hab as [A [B _]]. split; apply Hin; assumption.
     + match type of Hab with In _ (match ?l with _ => _ end) => destruct l as [|p1 [|p2 r]] eqn:El end;
@@ -973,9 +967,9 @@ Lemma formation_body_good : forall protos w cands, formation_body protos w = Ok 
   forall c, In c cands -> good protos w c.
 Proof.
   intros protos w cands H. unfold formation_body in H. cbv zeta in H.
-  destruct (find_hybrids (sort_by lt_pp protos) w) as [[hg un1]|k] eqn:E1; cbn [bind] in H; [|discriminate H].
+  destruct (find_hybrids (ordered_list protos) w) as [[hg un1]|k] eqn:E1; cbn [bind] in H; [|discriminate H].
   destruct (find_hybrids_allin _ _ _ _ E1) as [A1 B1].
-  assert (HP : incl (sort_by lt_pp protos) protos) by (intros x Hx; apply sort_by_in in Hx; exact Hx).
+  assert (HP : incl (ordered_list protos) protos) by (intros x Hx; exact (proj1 (In_ordered_list _ _) Hx)).
   assert (A1' : allin protos hg) by (intros g x Hg Hx; exact (HP x (A1 g x Hg Hx))).
   assert (B1' : incl un1 protos) by (intros x Hx; exact (HP x (B1 x Hx))).
   destruct (build_candidates w K_HYBRID hg [] []) as [[[c1 e1] s1]|k] eqn:E2; cbn [bind] in H; [|discriminate H].
@@ -1515,7 +1509,7 @@ Lemma formation_body_ndg : forall protos w cands, formation_body protos w = Ok c
   forall c, In c cands -> ndg (cmem c).
 Proof.
   intros protos w cands H. unfold formation_body in H. cbv zeta in H.
-  destruct (find_hybrids (sort_by lt_pp protos) w) as [[hg un1]|k] eqn:E1; cbn [bind] in H; [|discriminate H].
+  destruct (find_hybrids (ordered_list protos) w) as [[hg un1]|k] eqn:E1; cbn [bind] in H; [|discriminate H].
   pose proof (find_hybrids_ndg _ _ _ _ E1) as A1.
   destruct (build_candidates w K_HYBRID hg [] []) as [[[c1 e1] s1]|k] eqn:E2; cbn [bind] in H; [|discriminate H].
   destruct (build_candidates_ndg _ _ _ _ _ _ _ _ E2 A1) as [G1 T1]; [intros c []|].
@@ -1813,9 +1807,9 @@ Lemma formation_body_covers_id : forall protos w cands, formation_body protos w 
   forall i, inS i protos -> exists c, In c cands /\ inS i (cmem c).
 Proof.
   intros protos w cands H i Hi0.
-  assert (Hi : inS i (sort_by lt_pp protos)) by (apply inS_sort_by; exact Hi0).
+  assert (Hi : inS i (ordered_list protos)) by (apply inS_ordered_list; exact Hi0).
   unfold formation_body in H. cbv zeta in H.
-  destruct (find_hybrids (sort_by lt_pp protos) w) as [[hg un1]|k] eqn:E1; cbn [bind] in H; [|discriminate H].
+  destruct (find_hybrids (ordered_list protos) w) as [[hg un1]|k] eqn:E1; cbn [bind] in H; [|discriminate H].
   destruct (build_candidates w K_HYBRID hg [] []) as [[[c1 e1] s1]|k] eqn:E2; cbn [bind] in H; [|discriminate H].
   destruct (build_candidates_covers _ _ _ _ _ _ _ _ E2) as [Ec1 [A1 B1]].
   destruct (find_interleaved un1 c1 w) as [[ig un2]|k] eqn:E3; cbn [bind] in H; [|discriminate H].
@@ -1899,35 +1893,35 @@ Module Kinds.
    completeness for the model with the two proposed repairs switched on. *)
 
 (* ====================================================================================== *)
-(* (1) with both flags off the variants are the model                                      *)
+(* (1) with both flags ON the variants are the model (the code after the repairs)         *)
 (* ====================================================================================== *)
-Lemma find_interleaved_v_false : forall clusters cands w,
-  find_interleaved_v false clusters cands w = find_interleaved clusters cands w.
+Lemma find_interleaved_v_true : forall clusters cands w,
+  find_interleaved_v true clusters cands w = find_interleaved clusters cands w.
 Proof. intros. reflexivity. Qed.
 
-Lemma find_neighbouring_v_false : forall singles cands,
-  find_neighbouring_v false false singles cands = find_neighbouring singles cands.
+Lemma find_neighbouring_v_true : forall singles cands,
+  find_neighbouring_v true true singles cands = find_neighbouring singles cands.
 Proof. intros. reflexivity. Qed.
 
-Lemma formation_body_v_false : forall protos w,
-  formation_body_v false false protos w = formation_body protos w.
+Lemma formation_body_v_true : forall protos w,
+  formation_body_v true true protos w = formation_body protos w.
 Proof. intros. reflexivity. Qed.
 
-Lemma create_candidates_v_false : forall protos w,
-  create_candidates_v false false protos w = create_candidates protos w.
+Lemma create_candidates_v_true : forall protos w,
+  create_candidates_v true true protos w = create_candidates protos w.
 Proof.
   intros protos w. unfold create_candidates_v, create_candidates. destruct protos as [|p r]; [reflexivity|].
-  rewrite formation_body_v_false. reflexivity.
+  rewrite formation_body_v_true. reflexivity.
 Qed.
 
 Theorem variants_are_the_model :
-  (forall clusters cands w, find_interleaved_v false clusters cands w = find_interleaved clusters cands w) /\
-  (forall singles cands, find_neighbouring_v false false singles cands = find_neighbouring singles cands) /\
-  (forall protos w, formation_body_v false false protos w = formation_body protos w) /\
-  (forall protos w, create_candidates_v false false protos w = create_candidates protos w).
+  (forall clusters cands w, find_interleaved_v true clusters cands w = find_interleaved clusters cands w) /\
+  (forall singles cands, find_neighbouring_v true true singles cands = find_neighbouring singles cands) /\
+  (forall protos w, formation_body_v true true protos w = formation_body protos w) /\
+  (forall protos w, create_candidates_v true true protos w = create_candidates protos w).
 Proof.
-  split; [exact find_interleaved_v_false|]. split; [exact find_neighbouring_v_false|].
-  split; [exact formation_body_v_false|exact create_candidates_v_false].
+  split; [exact find_interleaved_v_true|]. split; [exact find_neighbouring_v_true|].
+  split; [exact formation_body_v_true|exact create_candidates_v_true].
 Qed.
 
 (* ====================================================================================== *)
@@ -2651,30 +2645,31 @@ Definition lt_trans (protos : list proto) : Prop := trans_on (fun a => In a prot
 
 Lemma sorted_protos_order_independent : forall protos protos',
   Permutation protos protos' -> no_tie protos -> lt_trans protos ->
-  sort_by lt_pp protos = sort_by lt_pp protos'.
+  ordered_list protos = ordered_list protos'.
 Proof.
-  intros protos protos' Hp Hnt Htr. apply sort_by_perm_unique_on.
+  intros protos protos' Hp Hnt Htr. unfold ordered_list. apply sort_by_perm_unique_on.
   - intros a _. apply lt_pp_irrefl.
-  - exact Htr.
-  - exact Hp.
-  - exact Hnt.
+  - intros a b c Ia Ib Ic. apply Htr; apply (sort_by_in _ pre_lt); assumption.
+  - apply Permutation_trans with protos; [apply sort_by_perm|].
+    apply Permutation_trans with protos'; [exact Hp|apply Permutation_sym; apply sort_by_perm].
+  - intros a b Ia Ib. apply Hnt; apply (sort_by_in _ pre_lt); assumption.
 Qed.
 
 Lemma zlen_perm : forall A (l l' : list A), Permutation l l' -> zlen l = zlen l'.
 Proof. intros A l l' Hp. unfold zlen. rewrite (Permutation_length Hp). reflexivity. Qed.
 
 Lemma formation_body_of_sorted : forall protos protos' w,
-  sort_by lt_pp protos = sort_by lt_pp protos' -> formation_body protos w = formation_body protos' w.
+  ordered_list protos = ordered_list protos' -> formation_body protos w = formation_body protos' w.
 Proof. intros protos protos' w H. unfold formation_body. rewrite H. reflexivity. Qed.
 
 Lemma formation_body_v_of_sorted : forall nw allp protos protos' w,
-  sort_by lt_pp protos = sort_by lt_pp protos' ->
+  ordered_list protos = ordered_list protos' ->
   formation_body_v nw allp protos w = formation_body_v nw allp protos' w.
 Proof. intros nw allp protos protos' w H. unfold formation_body_v. rewrite H. reflexivity. Qed.
 
-(* create_candidates depends on the order of its input only through sorted(protoclusters) *)
+(* create_candidates depends on the order of its input only through _ordered(protoclusters) *)
 Lemma create_candidates_of_sorted : forall protos protos' w,
-  Permutation protos protos' -> sort_by lt_pp protos = sort_by lt_pp protos' ->
+  Permutation protos protos' -> ordered_list protos = ordered_list protos' ->
   create_candidates protos w = create_candidates protos' w.
 Proof.
   intros protos protos' w Hp Hs.
@@ -2688,7 +2683,7 @@ Proof.
 Qed.
 
 Lemma create_candidates_v_of_sorted : forall nw allp protos protos' w,
-  Permutation protos protos' -> sort_by lt_pp protos = sort_by lt_pp protos' ->
+  Permutation protos protos' -> ordered_list protos = ordered_list protos' ->
   create_candidates_v nw allp protos w = create_candidates_v nw allp protos' w.
 Proof.
   intros nw allp protos protos' w Hp Hs.
@@ -2741,10 +2736,10 @@ Proof.
   - vm_compute. intros H. discriminate.
 Qed.
 
-(* ... and so does the formation itself: the literal statement "Permutation + no_tie -> same candidates" is FALSE
-   in the model.  Five protoclusters, no tie, two orders of supply, different candidates (a SINGLE for 1 and 2 in one
-   order, for 4 in the other).  The witness needs a location with a repeated part ([0,9) twice, which makes its
-   length exceed that of the location containing it); lt_trans excludes it. *)
+(* Before the repair of supply_order_same_key_groups the formation itself inherited this: five protoclusters, no
+   tie, two orders of supply, different candidates (4 and 3).  Since `_ordered(protoclusters)` pre-sorts by
+   (product, core start, core end), which is a total order on these five, both orders now give the same result
+   (instance of create_candidates_order_independent_prekeys below; here by computation). *)
 Definition ce_A : proto := mkProto 1 [mkPart 0 10 1] [mkPart 1 2 1] 1 [100].
 Definition ce_B : proto := mkProto 5 [mkPart 0 9 1; mkPart 0 9 1] [mkPart 0 1 1] 5 [].
 Definition ce_C : proto := mkProto 3 [mkPart 0 3 1; mkPart 20 32 1] [mkPart 1 2 1] 3 [200].
@@ -2752,21 +2747,22 @@ Definition ce_P2 : proto := mkProto 2 [mkPart 25 32 1] [mkPart 26 27 1] 2 [100].
 Definition ce_P4 : proto := mkProto 4 [mkPart 21 25 1] [mkPart 22 23 1] 4 [200].
 Definition ce_L1 : list proto := [ce_P2; ce_P4; ce_A; ce_B; ce_C].
 Definition ce_L2 : list proto := [ce_P2; ce_P4; ce_B; ce_C; ce_A].
-Lemma no_tie_alone_not_enough_end_to_end :
+Lemma cyclic_lt_orders_now_agree :
   no_tie ce_L1 /\ Permutation ce_L1 ce_L2 /\
-  (exists o1 o2, create_candidates ce_L1 None = Ok o1 /\ create_candidates ce_L2 None = Ok o2 /\
-                 length o1 = 4%nat /\ length o2 = 3%nat) /\
-  create_candidates ce_L1 None <> create_candidates ce_L2 None.
+  sort_by lt_pp ce_L1 <> sort_by lt_pp ce_L2 /\
+  create_candidates ce_L1 None = create_candidates ce_L2 None /\
+  exists o, create_candidates ce_L1 None = Ok o.
 Proof.
-  split; [|split; [|split]].
+  split; [|split; [|split; [|split]]].
   - intros a b Ha Hb. unfold ce_L1 in Ha, Hb. cbn [In] in Ha, Hb.
     destruct Ha as [Ha|[Ha|[Ha|[Ha|[Ha|[]]]]]]; destruct Hb as [Hb|[Hb|[Hb|[Hb|[Hb|[]]]]]]; subst a b;
       try (intros; reflexivity); vm_compute; intros; discriminate.
   - unfold ce_L1, ce_L2. do 2 apply perm_skip.
     apply Permutation_trans with [ce_B; ce_A; ce_C]; [apply perm_swap|].
     apply perm_skip. apply perm_swap.
-  - eexists. eexists. split; [vm_compute; reflexivity|]. split; [vm_compute; reflexivity|]. split; reflexivity.
   - vm_compute. intros H. discriminate.
+  - vm_compute. reflexivity.
+  - eexists. vm_compute. reflexivity.
 Qed.
 
 (* ================================================================== (2) linear records: single-part protoclusters *)
@@ -2848,6 +2844,190 @@ Proof.
   intros nw allp protos protos' w Hp Hlin Hdist. apply create_candidates_v_order_independent; [exact Hp| |].
   - apply no_tie_linear_distinct; assumption.
   - apply lt_trans_linear; exact Hlin.
+Qed.
+
+(* ================================================================== (2b) the pre-sort of _ordered resolves the ties
+   of __lt__: sorted(sorted(group, key=(product, core_start, core_end))) is sorted by the lexicographic combination *)
+Definition pre_key (p : proto) : Z * (Z * Z) := (pprod p, (fstart (pcore p), fend (pcore p))).
+
+Lemma pre_lt_irrefl : forall a, pre_lt a a = false.
+Proof. intros a. unfold pre_lt, pair_lt. cbn [fst snd]. lia. Qed.
+Lemma pre_lt_trans : forall a b c, pre_lt a b = true -> pre_lt b c = true -> pre_lt a c = true.
+Proof. intros a b c. unfold pre_lt, pair_lt. cbn [fst snd]. lia. Qed.
+Lemma pre_lt_tie : forall a b, pre_lt a b = false -> pre_lt b a = false -> pre_key a = pre_key b.
+Proof.
+  intros a b. unfold pre_lt, pair_lt, pre_key. cbn [fst snd]. intros H1 H2.
+  assert (E : pprod a = pprod b /\ fstart (pcore a) = fstart (pcore b) /\ fend (pcore a) = fend (pcore b)) by lia.
+  destruct E as [E1 [E2 E3]]. rewrite E1, E2, E3. reflexivity.
+Qed.
+
+(* generic: a stable sort by lt2 of a list sorted by lt1 is sorted by "lt2, ties of lt2 by lt1" *)
+Definition lex2 {A} (lt1 lt2 : A -> A -> bool) (a b : A) : bool := lt2 a b || (negb (lt2 b a) && lt1 a b).
+(* lt is a strict WEAK order on P: being incomparable is transitive (with irreflexivity and transitivity) *)
+Definition weak_on {A} (P : A -> Prop) (lt : A -> A -> bool) : Prop :=
+  forall a b c, P a -> P b -> P c -> lt a b = true -> lt a c = true \/ lt c b = true.
+
+Lemma insert_by_lex : forall A (P : A -> Prop) (lt1 lt2 : A -> A -> bool),
+  irrefl_on P lt2 -> trans_on P lt2 -> weak_on P lt2 ->
+  forall x l, P x -> (forall y, In y l -> P y) -> wsorted (lex2 lt1 lt2) l ->
+    (forall y, In y l -> lt1 x y = false) -> wsorted (lex2 lt1 lt2) (insert_by lt2 x l).
+Proof.
+  intros A P lt1 lt2 Hirr Htr Hwk x. induction l as [|y ys IH]; intros Px Pl Hs H1; cbn [insert_by].
+  - constructor; [constructor|]. intros b [].
+  - inversion Hs as [|? ? Hs' Hall]; subst.
+    assert (Py : P y) by (apply Pl; left; reflexivity).
+    assert (Pys : forall z, In z ys -> P z) by (intros z Hz; apply Pl; right; exact Hz).
+    destruct (lt2 x y) eqn:E.
+    + constructor; [exact Hs|]. intros z Hz.
+      assert (Pz : P z) by (apply Pl; exact Hz).
+      assert (Hxz : lt2 x z = true).
+      { destruct Hz as [Hz|Hz]; [subst z; exact E|].
+        destruct (Hwk x y z Px Py Pz E) as [X|X]; [exact X|].
+        pose proof (Hall z Hz) as L. unfold lex2 in L. rewrite X in L. discriminate L. }
+      unfold lex2. rewrite (lt_asym_on A P lt2 Hirr Htr x z Px Pz Hxz), Hxz. reflexivity.
+    + constructor.
+      * apply IH; [exact Px|exact Pys|exact Hs'|intros z Hz; apply H1; right; exact Hz].
+      * intros z Hz. apply (Permutation_in _ (insert_by_perm A lt2 x ys)) in Hz. destruct Hz as [Hz|Hz].
+        -- subst z. unfold lex2. rewrite E. rewrite (H1 y (or_introl eq_refl)). destruct (lt2 y x); reflexivity.
+        -- apply Hall. exact Hz.
+Qed.
+
+Lemma fold_insert_lex : forall A (P : A -> Prop) (lt1 lt2 : A -> A -> bool),
+  irrefl_on P lt2 -> trans_on P lt2 -> weak_on P lt2 ->
+  forall l acc, (forall y, In y l -> P y) -> (forall y, In y acc -> P y) ->
+    wsorted lt1 l -> (forall x y, In x l -> In y acc -> lt1 x y = false) ->
+    wsorted (lex2 lt1 lt2) acc ->
+    wsorted (lex2 lt1 lt2) (fold_left (fun acc x => insert_by lt2 x acc) l acc).
+Proof.
+  intros A P lt1 lt2 Hirr Htr Hwk. induction l as [|x xs IH]; intros acc Pl Pacc Hs1 Hx Hs; cbn [fold_left]; [exact Hs|].
+  inversion Hs1 as [|? ? Hs1' Hall]; subst.
+  apply IH.
+  - intros y Hy. apply Pl. right. exact Hy.
+  - intros y Hy. apply (Permutation_in _ (insert_by_perm A lt2 x acc)) in Hy.
+    destruct Hy as [Hy|Hy]; [subst y; apply Pl; left; reflexivity|apply Pacc; exact Hy].
+  - exact Hs1'.
+  - intros x' y Hx' Hy. apply (Permutation_in _ (insert_by_perm A lt2 x acc)) in Hy. destruct Hy as [Hy|Hy].
+    + subst y. apply Hall. exact Hx'.
+    + apply Hx; [right; exact Hx'|exact Hy].
+  - apply (insert_by_lex A P lt1 lt2 Hirr Htr Hwk); [apply Pl; left; reflexivity|exact Pacc|exact Hs|].
+    intros y Hy. apply Hx; [left; reflexivity|exact Hy].
+Qed.
+
+Lemma two_pass_wsorted : forall A (P : A -> Prop) (lt1 lt2 : A -> A -> bool),
+  irrefl_on P lt1 -> trans_on P lt1 -> irrefl_on P lt2 -> trans_on P lt2 -> weak_on P lt2 ->
+  forall l, (forall y, In y l -> P y) -> wsorted (lex2 lt1 lt2) (sort_by lt2 (sort_by lt1 l)).
+Proof.
+  intros A P lt1 lt2 I1 T1 I2 T2 W2 l Pl.
+  change (sort_by lt2 (sort_by lt1 l)) with (fold_left (fun acc x => insert_by lt2 x acc) (sort_by lt1 l) []).
+  apply (fold_insert_lex A P lt1 lt2 I2 T2 W2).
+  - intros y Hy. apply Pl. apply (sort_by_in _ lt1). exact Hy.
+  - intros y [].
+  - apply (sort_by_wsorted_on A P lt1 I1 T1). exact Pl.
+  - intros x y _ [].
+  - constructor.
+Qed.
+
+(* the two-pass sort of a permuted list is the same list when no two different elements tie under BOTH comparisons *)
+Lemma two_pass_perm_unique : forall A (lt1 lt2 : A -> A -> bool) (l l' : list A),
+  irrefl_on (fun a => In a l) lt1 -> trans_on (fun a => In a l) lt1 ->
+  irrefl_on (fun a => In a l) lt2 -> trans_on (fun a => In a l) lt2 -> weak_on (fun a => In a l) lt2 ->
+  Permutation l l' ->
+  (forall a b, In a l -> In b l -> lt2 a b = false -> lt2 b a = false ->
+               lt1 a b = false -> lt1 b a = false -> a = b) ->
+  sort_by lt2 (sort_by lt1 l) = sort_by lt2 (sort_by lt1 l').
+Proof.
+  intros A lt1 lt2 l l' I1 T1 I2 T2 W2 Hp Htot.
+  assert (Hperm : forall m, Permutation (sort_by lt2 (sort_by lt1 m)) m).
+  { intros m. apply Permutation_trans with (sort_by lt1 m); apply sort_by_perm. }
+  apply (wsorted_unique A (lex2 lt1 lt2)).
+  - apply (two_pass_wsorted A (fun a => In a l) lt1 lt2 I1 T1 I2 T2 W2). intros y Hy. exact Hy.
+  - apply (two_pass_wsorted A (fun a => In a l) lt1 lt2 I1 T1 I2 T2 W2). intros y Hy.
+    apply (Permutation_in _ (Permutation_sym Hp)). exact Hy.
+  - apply Permutation_trans with l; [apply Hperm|].
+    apply Permutation_trans with l'; [exact Hp|apply Permutation_sym; apply Hperm].
+  - intros a b Ia Ib Hab Hba.
+    apply (Permutation_in _ (Hperm l)) in Ia. apply (Permutation_in _ (Hperm l)) in Ib.
+    unfold lex2 in Hab, Hba.
+    destruct (lt2 a b) eqn:E1; destruct (lt2 b a) eqn:E2; cbn in Hab, Hba; try discriminate.
+    apply Htot; assumption.
+Qed.
+
+(* __lt__ is a strict weak order on the protoclusters of the input *)
+Definition lt_weak (protos : list proto) : Prop := weak_on (fun a => In a protos) lt_pp.
+
+(* _ordered(protoclusters) does not depend on the supply order when __lt__ is a strict weak order on the input and
+   no two different protoclusters tie under __lt__ AND have the same (product, core start, core end) *)
+Lemma ordered_protos_order_independent : forall protos protos',
+  Permutation protos protos' -> lt_trans protos -> lt_weak protos ->
+  (forall a b, In a protos -> In b protos -> lt_pp a b = false -> lt_pp b a = false ->
+               pre_key a = pre_key b -> a = b) ->
+  ordered_list protos = ordered_list protos'.
+Proof.
+  intros protos protos' Hp Htr Hwk Htot. unfold ordered_list. apply two_pass_perm_unique.
+  - intros a _. apply pre_lt_irrefl.
+  - intros a b c _ _ _. apply pre_lt_trans.
+  - intros a _. apply lt_pp_irrefl.
+  - exact Htr.
+  - exact Hwk.
+  - exact Hp.
+  - intros a b Ia Ib H1 H2 H3 H4. apply Htot; try assumption. apply pre_lt_tie; assumption.
+Qed.
+
+(* END TO END, any wrap point *)
+Theorem create_candidates_order_independent_keys : forall protos protos' w,
+  Permutation protos protos' -> lt_trans protos -> lt_weak protos ->
+  (forall a b, In a protos -> In b protos -> lt_pp a b = false -> lt_pp b a = false ->
+               pre_key a = pre_key b -> a = b) ->
+  create_candidates protos w = create_candidates protos' w.
+Proof.
+  intros protos protos' w Hp Htr Hwk Htot. apply create_candidates_of_sorted; [exact Hp|].
+  apply ordered_protos_order_independent; assumption.
+Qed.
+
+(* END TO END, any record (linear, circular, origin-crossing, any strands) and NO hypothesis on __lt__: pairwise
+   different (product, core start, core end) *)
+Theorem create_candidates_order_independent_prekeys : forall protos protos' w,
+  Permutation protos protos' ->
+  (forall a b, In a protos -> In b protos -> pre_key a = pre_key b -> a = b) ->
+  create_candidates protos w = create_candidates protos' w.
+Proof.
+  intros protos protos' w Hp Hd. apply create_candidates_of_sorted; [exact Hp|].
+  unfold ordered_list. f_equal. apply sort_by_perm_unique_on.
+  - intros a _. apply pre_lt_irrefl.
+  - intros a b c _ _ _. apply pre_lt_trans.
+  - exact Hp.
+  - intros a b Ia Ib H1 H2. apply Hd; try assumption. apply pre_lt_tie; assumption.
+Qed.
+
+Lemma lt_weak_linear : forall protos, (forall p, In p protos -> single_lin p) -> lt_weak protos.
+Proof.
+  intros protos Hlin a b c Ia Ib Ic Hab.
+  destruct (Hlin a Ia) as [qa [Ha La]]. destruct (Hlin b Ib) as [qb [Hb Lb]].
+  destruct (Hlin c Ic) as [qc [Hc Lc]].
+  rewrite (lt_pp_single a b qa qb Ha Hb) in Hab by lia.
+  rewrite (lt_pp_single a c qa qc Ha Hc) by lia.
+  rewrite (lt_pp_single c b qc qb Hc Hb) by lia.
+  unfold pair_lt in *. cbn [fst snd] in *. lia.
+Qed.
+
+(* END TO END on linear records: single-part protoclusters with pairwise different
+   (coordinates, product, core start, core end) *)
+Theorem create_candidates_order_independent_keys_linear : forall protos protos' w,
+  Permutation protos protos' ->
+  (forall p, In p protos -> single_lin p) ->
+  (forall a b qa qb, In a protos -> In b protos -> ploc a = [qa] -> ploc b = [qb] ->
+                     ps qa = ps qb -> pe qa = pe qb -> pre_key a = pre_key b -> a = b) ->
+  create_candidates protos w = create_candidates protos' w.
+Proof.
+  intros protos protos' w Hp Hlin Hdist. apply create_candidates_order_independent_keys; [exact Hp| | |].
+  - apply lt_trans_linear; exact Hlin.
+  - apply lt_weak_linear; exact Hlin.
+  - intros a b Ia Ib Hab Hba Hk.
+    destruct (Hlin a Ia) as [qa [Ha La]]. destruct (Hlin b Ib) as [qb [Hb Lb]].
+    rewrite (lt_pp_single a b qa qb Ha Hb) in Hab by lia.
+    rewrite (lt_pp_single b a qb qa Hb Ha) in Hba by lia.
+    unfold pair_lt in Hab, Hba. cbn [fst snd] in Hab, Hba.
+    apply (Hdist a b qa qb Ia Ib Ha Hb); [lia|lia|exact Hk].
 Qed.
 
 (* non-vacuity: three concrete protoclusters (nested, overlapping, and one sharing a start) *)
@@ -3140,10 +3320,10 @@ Lemma formation_body_shape : forall protos cands, linP protos -> formation_body 
                   singles_go None e3 l = Ok ss /\ ndg l /\ incl l protos.
 Proof.
   intros protos cands Hs H. unfold formation_body in H. cbv zeta in H.
-  destruct (find_hybrids (sort_by lt_pp protos) None) as [[hg un1]|k] eqn:E1; cbn [bind] in H; [|discriminate H].
+  destruct (find_hybrids (ordered_list protos) None) as [[hg un1]|k] eqn:E1; cbn [bind] in H; [|discriminate H].
   destruct (find_hybrids_allin _ _ _ _ E1) as [A1 B1].
   pose proof (find_hybrids_ndg _ _ _ _ E1) as N1.
-  assert (HP : incl (sort_by lt_pp protos) protos) by (intros x Hx; apply sort_by_in in Hx; exact Hx).
+  assert (HP : incl (ordered_list protos) protos) by (intros x Hx; exact (proj1 (In_ordered_list _ _) Hx)).
   assert (A1' : allin protos hg) by (intros g x Hg Hx; exact (HP x (A1 g x Hg Hx))).
   assert (B1' : incl un1 protos) by (intros x Hx; exact (HP x (B1 x Hx))).
   assert (T0 : tinv protos []).
@@ -3325,7 +3505,7 @@ Qed.
 (* ================================================================== audit *)
 End Order.
 
-(* ---------- witnesses of the findings about the meaning of the kinds (linear records) ---------- *)
+(* ---------- regression witnesses of the repaired findings about the meaning of the kinds (linear records) ---------- *)
 Definition kw_p (i s e cs ce : Z) (defs : list Z) : proto := mkProto i [mkPart s e 1] [mkPart cs ce 1] i defs.
 (* both members of a pair are members of one candidate of the list whose kind is in `kinds` *)
 Definition together (kinds : list Z) (x y : proto) (out : list cand) : bool :=
@@ -3333,87 +3513,100 @@ Definition together (kinds : list Z) (x y : proto) (out : list cand) : bool :=
 Definition all_kinds : list Z := [K_SINGLE; K_INTERLEAVED; K_NEIGHBOURING; K_HYBRID].
 Definition kinds_ok (protos : list proto) (out : list cand) : bool :=
   forallb (fun b => b) (kind_clauses protos None (map to_ocand out)).
+Definition view (out : list cand) : list (Z * list Z) := map (fun c => (ckind c, map pid (cmem c))) out.
 
 (* candidate_index_window, interleaved: hybrid {0,1} [0,1000) with joint core [100,900) sorts first, the short
    hybrids {2,3} and {4,5} follow; protocluster 6 (core [890,950), overlapping the core of 0) has insertion
-   point 3, so only candidates[2:] = [{4,5}] is looked at *)
+   point 3, so before the repair only candidates[2:] = [{4,5}] was looked at and 6 was not interleaved with 0.
+   Now: one INTERLEAVED candidate holds 0 and 6 (it has the coordinates of the neighbouring group of all seven, which
+   is therefore merged into it), every kind clause holds.  `old` = the historical variant with the window *)
 Definition wi_protos : list proto :=
   [kw_p 0 0 1000 100 900 [0]; kw_p 1 0 1000 100 120 [0]; kw_p 2 10 20 12 14 [1]; kw_p 3 10 20 11 15 [1];
    kw_p 4 30 40 32 34 [2]; kw_p 5 30 40 31 35 [2]; kw_p 6 880 1100 890 950 []].
 Lemma window_interleaved_witness :
-  exists out rep,
-    create_candidates wi_protos None = Ok out /\ create_candidates_v true false wi_protos None = Ok rep /\
+  exists out old,
+    create_candidates wi_protos None = Ok out /\ create_candidates_v false true wi_protos None = Ok old /\
     rel_I (kw_p 0 0 1000 100 900 [0]) (kw_p 6 880 1100 890 950 []) = true /\
-    together [K_INTERLEAVED; K_HYBRID] (kw_p 0 0 1000 100 900 [0]) (kw_p 6 880 1100 890 950 []) out = false /\
-    together [K_INTERLEAVED] (kw_p 0 0 1000 100 900 [0]) (kw_p 6 880 1100 890 950 []) rep = true /\
-    kinds_ok wi_protos out = false /\ kinds_ok wi_protos rep = true.
+    view out = [(K_INTERLEAVED, [0; 1; 2; 3; 4; 5; 6]); (K_HYBRID, [0; 1]); (K_HYBRID, [2; 3]); (K_HYBRID, [4; 5])] /\
+    together [K_INTERLEAVED] (kw_p 0 0 1000 100 900 [0]) (kw_p 6 880 1100 890 950 []) out = true /\
+    kinds_ok wi_protos out = true /\
+    together [K_INTERLEAVED; K_HYBRID] (kw_p 0 0 1000 100 900 [0]) (kw_p 6 880 1100 890 950 []) old = false /\
+    kinds_ok wi_protos old = false.
 Proof.
   destruct (create_candidates wi_protos None) as [out|k] eqn:E; vm_compute in E; [|discriminate E].
-  destruct (create_candidates_v true false wi_protos None) as [rep|k] eqn:R; vm_compute in R; [|discriminate R].
+  destruct (create_candidates_v false true wi_protos None) as [old|k] eqn:R; vm_compute in R; [|discriminate R].
   inversion E as [E']. inversion R as [R']. eexists. eexists.
   split; [reflexivity|]. split; [reflexivity|]. repeat split; vm_compute; reflexivity.
 Qed.
 
 (* candidate_index_window, neighbouring: protocluster 6 [50,60) lies inside hybrid {2,3} [6,100); its insertion
-   point is 3, so only candidates[2:] = [{4,5}] and candidates[0] = {0,1} are looked at: no candidate holds 6
-   together with 2 *)
+   point is 3, so before the repair only candidates[2:] = [{4,5}] and candidates[0] = {0,1} were looked at and no
+   candidate held 6 together with 2.  Now the group {2,3,4,5,6} is found (it has the coordinates of hybrid {2,3} and
+   is merged into it, 6 keeps its single) *)
 Definition wn_protos : list proto :=
   [kw_p 0 0 5 1 3 [0]; kw_p 1 0 5 1 4 [0]; kw_p 2 6 100 30 32 [1]; kw_p 3 6 100 29 33 [1];
    kw_p 4 10 20 12 14 [2]; kw_p 5 10 20 11 15 [2]; kw_p 6 50 60 52 55 []].
 Lemma window_neighbouring_witness :
-  exists out rep,
-    create_candidates wn_protos None = Ok out /\ create_candidates_v true false wn_protos None = Ok rep /\
+  exists out old,
+    create_candidates wn_protos None = Ok out /\ create_candidates_v false true wn_protos None = Ok old /\
     rel_N (kw_p 2 6 100 30 32 [1]) (kw_p 6 50 60 52 55 []) = true /\
-    together all_kinds (kw_p 2 6 100 30 32 [1]) (kw_p 6 50 60 52 55 []) out = false /\
-    together all_kinds (kw_p 2 6 100 30 32 [1]) (kw_p 6 50 60 52 55 []) rep = true /\
-    kinds_ok wn_protos out = false /\ kinds_ok wn_protos rep = true.
+    view out = [(K_HYBRID, [0; 1]); (K_HYBRID, [2; 3; 4; 5; 6]); (K_HYBRID, [4; 5]); (K_SINGLE, [6])] /\
+    together all_kinds (kw_p 2 6 100 30 32 [1]) (kw_p 6 50 60 52 55 []) out = true /\
+    kinds_ok wn_protos out = true /\
+    together all_kinds (kw_p 2 6 100 30 32 [1]) (kw_p 6 50 60 52 55 []) old = false /\
+    kinds_ok wn_protos old = false.
 Proof.
   destruct (create_candidates wn_protos None) as [out|k] eqn:E; vm_compute in E; [|discriminate E].
-  destruct (create_candidates_v true false wn_protos None) as [rep|k] eqn:R; vm_compute in R; [|discriminate R].
+  destruct (create_candidates_v false true wn_protos None) as [old|k] eqn:R; vm_compute in R; [|discriminate R].
   inversion E as [E']. inversion R as [R']. eexists. eexists.
   split; [reflexivity|]. split; [reflexivity|]. repeat split; vm_compute; reflexivity.
 Qed.
 
 (* neighbouring_singles_not_linked: 4 [5,30) and 5 [25,50) overlap each other; 4 also overlaps hybrid {0,1}
-   [0,10) and 5 overlaps hybrid {2,3} [45,60), so both are dropped from `unassigned` and never compared: two
-   neighbouring candidates {0,1,4} [0,30) and {5,2,3} [25,60) that overlap each other *)
+   [0,10) and 5 overlaps hybrid {2,3} [45,60).  Before the repair both were dropped from `unassigned` and never
+   compared: two neighbouring candidates {0,1,4} [0,30) and {5,2,3} [25,60) that overlap each other.  Now all singles
+   are compared: one NEIGHBOURING candidate with all six *)
 Definition ws_protos : list proto :=
   [kw_p 0 0 10 2 4 [0]; kw_p 1 0 10 1 5 [0]; kw_p 2 45 60 50 52 [1]; kw_p 3 45 60 49 53 [1];
    kw_p 4 5 30 12 14 []; kw_p 5 25 50 31 35 []].
-Lemma singles_not_linked_witness :
-  exists out rep,
-    create_candidates ws_protos None = Ok out /\ create_candidates_v false true ws_protos None = Ok rep /\
+Lemma singles_linked_witness :
+  exists out old,
+    create_candidates ws_protos None = Ok out /\ create_candidates_v true false ws_protos None = Ok old /\
     rel_N (kw_p 4 5 30 12 14 []) (kw_p 5 25 50 31 35 []) = true /\
-    together all_kinds (kw_p 4 5 30 12 14 []) (kw_p 5 25 50 31 35 []) out = false /\
-    together [K_NEIGHBOURING] (kw_p 4 5 30 12 14 []) (kw_p 5 25 50 31 35 []) rep = true /\
-    map (fun c => (ckind c, map pid (cmem c))) (filter (fun c => ckind c =? K_NEIGHBOURING) out) = [(K_NEIGHBOURING, [0; 1; 4]); (K_NEIGHBOURING, [5; 2; 3])] /\
-    kinds_ok ws_protos out = false /\ kinds_ok ws_protos rep = true.
+    view out = [(K_NEIGHBOURING, [0; 1; 4; 5; 2; 3]); (K_HYBRID, [0; 1]); (K_SINGLE, [4]); (K_SINGLE, [5]); (K_HYBRID, [2; 3])] /\
+    together [K_NEIGHBOURING] (kw_p 4 5 30 12 14 []) (kw_p 5 25 50 31 35 []) out = true /\
+    kinds_ok ws_protos out = true /\
+    view (filter (fun c => ckind c =? K_NEIGHBOURING) old) = [(K_NEIGHBOURING, [0; 1; 4]); (K_NEIGHBOURING, [5; 2; 3])] /\
+    kinds_ok ws_protos old = false.
 Proof.
   destruct (create_candidates ws_protos None) as [out|k] eqn:E; vm_compute in E; [|discriminate E].
-  destruct (create_candidates_v false true ws_protos None) as [rep|k] eqn:R; vm_compute in R; [|discriminate R].
+  destruct (create_candidates_v true false ws_protos None) as [old|k] eqn:R; vm_compute in R; [|discriminate R].
   inversion E as [E']. inversion R as [R']. eexists. eexists.
   split; [reflexivity|]. split; [reflexivity|]. repeat split; vm_compute; reflexivity.
 Qed.
 
-(* ---------- end-to-end order independence is false when two protoclusters share coordinates AND core ---------- *)
+(* ---------- regression witness of the repaired finding supply_order_same_key_groups ---------- *)
 (* 2 and 3 have the same location [5,165) and the same core [20,160) (different products, different defining
    genes): the hybrid groups {0,2} (gene 1) and {1,3} (gene 0) both span [5,165), build_candidates unites them and
-   only the members of the LATER group get an extra single; which group is later follows the supply order of 2, 3 *)
+   only the members of the LATER group get an extra single.  Before the repair, which group is later followed the
+   supply order of 2, 3 (sorted() is stable): SINGLE 1 for the order 2, 3 and SINGLE 0 for 3, 2.  Now
+   `_ordered(protoclusters)` puts 3 (product 3) before 2 (product 7) whatever the supply order: SINGLE 0 in both
+   (instance of create_candidates_order_independent_keys_linear: the (coordinates, product, core) triples differ) *)
 Definition od_p (i s e cs ce prod : Z) (defs : list Z) : proto := mkProto i [mkPart s e 1] [mkPart cs ce 1] prod defs.
 Definition od_0 := od_p 0 105 165 105 160 2 [1].
 Definition od_1 := od_p 1 25 150 25 110 4 [0].
 Definition od_2 := od_p 2 5 165 20 160 7 [1].
 Definition od_3 := od_p 3 5 165 20 160 3 [0].
-Lemma order_dependent_witness :
+Lemma order_witness_repaired :
   Permutation [od_0; od_1; od_2; od_3] [od_0; od_1; od_3; od_2] /\
-  exists o1 o2, create_candidates [od_0; od_1; od_2; od_3] None = Ok o1 /\
-                create_candidates [od_0; od_1; od_3; od_2] None = Ok o2 /\
-    map (fun c => (ckind c, map pid (cmem c))) o1 = [(K_HYBRID, [3; 2; 1; 0]); (K_SINGLE, [1])] /\
-    map (fun c => (ckind c, map pid (cmem c))) o2 = [(K_HYBRID, [3; 2; 1; 0]); (K_SINGLE, [0])].
+  sort_by lt_pp [od_0; od_1; od_2; od_3] <> sort_by lt_pp [od_0; od_1; od_3; od_2] /\
+  create_candidates [od_0; od_1; od_2; od_3] None = create_candidates [od_0; od_1; od_3; od_2] None /\
+  exists o, create_candidates [od_0; od_1; od_2; od_3] None = Ok o /\
+            view o = [(K_HYBRID, [3; 2; 1; 0]); (K_SINGLE, [0])].
 Proof.
   split; [apply perm_skip; apply perm_skip; apply perm_swap|].
+  split; [vm_compute; intros H; discriminate H|].
+  split; [vm_compute; reflexivity|].
   destruct (create_candidates [od_0; od_1; od_2; od_3] None) as [o1|k] eqn:E1; vm_compute in E1; [|discriminate E1].
-  destruct (create_candidates [od_0; od_1; od_3; od_2] None) as [o2|k] eqn:E2; vm_compute in E2; [|discriminate E2].
-  inversion E1. inversion E2. eexists. eexists. split; [reflexivity|]. split; [reflexivity|].
-  split; vm_compute; reflexivity.
+  inversion E1. eexists. split; [reflexivity|]. vm_compute. reflexivity.
 Qed.
